@@ -529,7 +529,7 @@ func leakSite(l string) string {
 type C11Params struct {
 	Links   []LinkCfg   `json:"links"`
 	Abandon *CallSpec   `json:"abandon"`
-	Mode    int         `json:"mode"` // 0 handler returns after k of n, 1 caller cancels with m unread, 2 caller stops reading and finishes (cancels) later
+	Mode    int         `json:"mode"` // 0 handler returns after k of n, 1 caller cancels with m unread, 2 caller stops reading without cancelling, 3 handler stops reading (stays) while the caller sends on and then cancels
 	Others  []*CallSpec `json:"others"`
 	Probe   *CallSpec   `json:"probe"`
 }
@@ -543,7 +543,48 @@ func genC11(g *rand.Rand, tier string) any {
 	}
 	a := &CallSpec{ID: 1, Kind: 1 + g.IntN(3), MsgLen: 10}
 	p.Mode = g.IntN(2)
-	if p.Mode == 0 {
+	if g.IntN(5) == 0 {
+		p.Mode = 2 + g.IntN(2)
+	}
+	if p.Mode == 2 {
+		// the caller stops reading and does not cancel: it sits on its stream with
+		// responses (and the final status) unread while the handler finishes
+		if a.Kind == KCStream {
+			a.Kind = KSStream
+		}
+		m := 1 + g.IntN(8)
+		a.HSendN = m
+		if a.Kind == KSStream {
+			a.CSendN = 1
+			a.HProg = []Op{{K: 'r'}}
+		}
+		a.HProg = append(a.HProg, Op{K: 's', N: m})
+		var ap, b []Op
+		if a.Kind == KSStream {
+			ap = []Op{{K: 's'}, {K: 'c'}}
+		}
+		if read := g.IntN(m + 1); read > 0 {
+			b = append(b, Op{K: 'r', N: read})
+		}
+		b = append(b, Op{K: 'w'})
+		a.CProg = []Op{{K: 'f', A: ap, B: b}}
+	} else if p.Mode == 3 {
+		// the handler stops reading but stays (it waits for its context) while the
+		// caller sends n more messages and then cancels
+		if a.Kind == KSStream {
+			a.Kind = KBidi
+		}
+		n := g.IntN(7)
+		a.CSendN = n
+		a.HProg = []Op{{K: 'w'}}
+		var ap []Op
+		if n > 0 {
+			ap = []Op{{K: 's', N: n}}
+		}
+		a.CProg = []Op{{K: 'f', A: ap, B: []Op{{K: 'y'}, {K: 'y'}, {K: 'y'}, {K: 'x'}}}}
+		p.Links[0].Cap, p.Links[1].Cap = -1, -1
+		classU = true
+	} else if p.Mode == 0 {
 		if a.Kind == KSStream {
 			a.Kind = KBidi
 		}
@@ -692,7 +733,19 @@ func execC11(e *Env, pp any) {
 		return
 	}
 	const prop = "C11"
-	site := []string{"handler-returned-early", "caller-cancelled-unread"}[p.Mode%2]
+	site := []string{"handler-returned-early", "caller-cancelled-unread", "caller-stopped-reading", "handler-stopped-reading"}[p.Mode%4]
+	if p.Mode == 2 {
+		e.Note("abandon.caller-stops-reading")
+		if p.Abandon.HSendN-len(ar.CGot) >= 2 {
+			e.Note("abandon.stopped.unread>=2")
+		}
+	}
+	if p.Mode == 3 {
+		e.Note("abandon.handler-stops-reading")
+		if p.Abandon.CSendN >= 2 {
+			e.Note("abandon.unconsumed>=2")
+		}
+	}
 	if p.Mode == 0 && ar.HReturned {
 		e.Note("abandon.handler-early")
 		if unread := p.Abandon.CSendN - p.Abandon.EarlyK; unread >= 2 {
@@ -747,7 +800,7 @@ func execC11(e *Env, pp any) {
 			}
 		}
 	}
-	if !ar.Returned {
+	if !ar.Returned && p.Mode != 2 {
 		e.Violate(prop, "hang", site+".self", "the abandoned stream's own client program has not finished\n%s", e.WaitGraph())
 	}
 	// the others' data is exact
